@@ -93,7 +93,8 @@ func (b *BalancerFactory) watcher() {
 				// (avoid being immediate delete the balancer which had been created recently)
 			} else {
 				b.cache.Delete(key)
-				b.balancer.Delete(key.(string))
+				// the balancer keys its state by the (renamed) CacheKey of the result, not by the cache-map key
+				b.balancer.Delete(cache.res.Load().(discovery.Result).CacheKey)
 			}
 			return true
 		})
